@@ -741,6 +741,9 @@ class TFLiteSupportedOperators:
             # Valid if IFM W and H are both 1, or IFM and OFM shape are the same
             if ((ifm_shape_h == 1) and (ifm_shape_w == 1)) or (ifm_shape == ofm_shape):
                 valid = True
+            elif align_corners and (ifm_shape_h == 1 or ifm_shape_w == 1):
+                # The scaling (OFM - 1) / (IFM - 1) is undefined when only one of IFM W and H is 1
+                valid = False
             else:
                 # Valid if OFM is 2/4/8x IFM (-1 for align corners)
                 if align_corners:
